@@ -427,6 +427,12 @@ loop:
 				}
 			}
 
+		case <-rpc.Context().Done():
+			// The region client drops RPCs whose own context is done without
+			// sending a result, don't wait for one.
+			results[rpcToRes[rpc]].Error = rpc.Context().Err()
+			ok = false
+
 		case <-ctx.Done():
 			canceledIndex = i
 			ok = false
